@@ -12,7 +12,8 @@ RULE = ("case = event sequence over <=5 scopes and <=4 tasks where every scope o
         "objects) and/or trace id, scope names from a pool incl. the empty name, names with '%', '%s', '%d', '%(', brackets, blanks, "
         "dots; ctx.log_debug/info/warning/error calls at arbitrary positions (inside scopes, outside any scope, in ctx.spawn "
         "members and in plain tasks that inherited the context, after the scope was left) with %-formats and arguments from a "
-        "pool (agreeing and disagreeing: too few / too many / ill-typed arguments, malformed directives, '%%', no arguments) plus "
+        "pool (agreeing and disagreeing: too few / too many / ill-typed arguments, malformed directives, '%%', no arguments, ONE mapping "
+        "argument with %(key)s/%(key)d/%(key)r placeholders incl. missing keys) plus "
         "random formats over the alphabet {% s d r q z [ ] = /}, optional exception; a fifth of the sequences use the fault knob "
         "(tasks cancelled from outside while suspended or blocked in an exit, async scopes with a disposable whose cleanup raises "
         "and whose caller goes on logging); records captured by handlers on the supplied loggers and on the root logger (a record "
@@ -21,7 +22,8 @@ RULE = ("case = event sequence over <=5 scopes and <=4 tasks where every scope o
         "scope nested in another AND (an inherited trace id or logger is exercised: some ancestor sets what the logging scope does "
         "not); distinct = by case text")
 TRUSTED = ["Python logging (Logger.log, LogRecord.getMessage, propagation to the root logger) as exercised, modelled by Haiway/Model/Logs.lean",
-           "the %-format reader of the model covers literal text, %%, %s %r %d; the generators stay inside that fragment for user formats "
+           "the %-format reader of the model covers literal text, %%, %s %r %d, and %(key)s %(key)r %(key)d with a single mapping "
+           "argument; the generators stay inside that fragment for user formats "
            "(scope names are arbitrary)",
            "harness/metrics_common.py (event language, spec replay, runner, capturing handlers) + harness/comp_logs.py monitor"]
 ASSUMPTIONS = ["trace ids given to ctx.scope are non-empty strings", "supplied loggers and the root logger let every level through (level DEBUG)",
@@ -35,6 +37,11 @@ FORMATS = [
     # disagreeing format / arguments: may be lost, must not raise
     ("bad_%s_%s", "sonly"), ("none", "sextra"), ("%d", "sstr"), ("trail_%", "sa"), ("%q", "sa"), ("%", "i1"),
     ("rate_100%_%s", "sz"),
+    # ONE mapping argument with named placeholders (agreeing) …
+    ("user_%(name)s", "kname=sbob"), ("%(n)d_of_%(m)d", "kn=i1,km=i3"), ("pct_100%%_%(a)r", "ka=sx"), ("%(a)s_%(a)s", "ka=i5,kb=sy"),
+    ("plain_text", "ka=i1"),
+    # … and disagreeing ones
+    ("%(missing)s", "ka=i1"), ("%(a)d", "ka=sx"), ("%(a", "ka=i1"), ("%(a)", "ka=i1"), ("half_%", "ka=i1"),
 ]
 ALPHA = list("%%%sdrqz[]=/")   # no flag / width / conversion characters other than s d r
 
@@ -82,8 +89,11 @@ def _user_text(ev):
     """what `fmt % args` gives (None when the user's own format and arguments disagree)"""
     if not ev.args:
         return ev.fmt
+    args = ev.args
+    if len(args) == 1 and isinstance(args[0], dict) and args[0]:
+        args = args[0]          # what `logging` documents for a single mapping argument
     try:
-        return ev.fmt % ev.args
+        return ev.fmt % args
     except Exception:  # noqa: BLE001
         return None
 
@@ -219,6 +229,9 @@ def corpus():
         # nested scope without own trace id inherits (pinned defect: fresh id)
         "0:o:a:s:outer::tr1 0:o:a:s:inner:: 0:l:i:0:hello_%s:sw 0:x 0:x 0:e",
         "0:o:a:s:outer:: 0:o:s:a:mid::T-2 0:o:s:s:inner:: 0:l:w:0:plain: 0:x 0:l:e:1:%d_items_of_%s:i3,sx 0:x 0:l:d:0:x: 0:x 0:e",
+        # a single mapping argument, inside scopes whose names contain '%' and outside any scope
+        "0:l:i:0:user_%(name)s:kname=sbob 0:o:a:s:50%:: 0:l:i:0:user_%(name)s:kname=sbob 0:l:w:0:%(n)d_of_%(m)d:kn=i1,km=i3 "
+        "0:o:s:s:%(x)s:: 0:l:e:1:pct_100%%_%(a)r:ka=sx 0:l:d:0:%(missing)s:ka=i1 0:x 0:x 0:e",
         # '%' in the scope name with arguments (pinned defect: message lost)
         "0:o:a:s:50%:: 0:l:i:0:hello_%s:sw 0:l:i:0:plain_100%: 0:x 0:e",
         "0:o:s:s:%s:: 0:l:e:1:%d:i5 0:o:s:s:%d:0: 0:l:w:0:a%sb%sc:s1,s2 0:x 0:x 0:e",
